@@ -134,7 +134,9 @@ class CRef(refsem.Ref):
 
     def n_Quotient(self, s):
         a, b = self.ev(s[1]), self.ev(s[2])
-        if b == 0 or not self.floating:
+        # in the integer fragment a true division needs a floating operand (int / int truncates
+        # in C): an integer-valued float constant such as 2.0 is one
+        if b == 0 or not (self.floating or isinstance(a, float) or isinstance(b, float)):
             raise OutOfRange()
         return a / b
 
@@ -267,15 +269,15 @@ def c_well_typed(s):
     return True
 
 
-def supported(spec, floating):
+def supported(spec, floating, mixed=False):
     if not floating and not c_well_typed(spec):
         return False
     tags = {c[0] for c in walk(spec)}
     ok = {"Variable", "int", "float", "str", "none", "tuple", "Sum", "Product", "Power",
           "Comparison", "If", "Min", "Max", "CommonSubexpression", "Call"}
-    if floating:
+    if floating or mixed:
         ok |= {"Quotient"}
-    else:
+    if not floating:
         ok |= {"FloorDiv", "Remainder", "LeftShift", "RightShift", "BitwiseNot", "BitwiseOr",
                "BitwiseXor", "BitwiseAnd", "LogicalNot", "LogicalOr", "LogicalAnd"}
     if not tags <= ok:
@@ -285,19 +287,19 @@ def supported(spec, floating):
             return False
         if c[0] in ("Min", "Max") and len(c[1]) != 3:
             return False
-        if c[0] == "float" and not floating:
+        if c[0] == "float" and not (floating or mixed):
             return False
     return True
 
 
-def check_specs(specs, floating, r=None):
+def check_specs(specs, floating, r=None, mixed=False):
     """-> {index: (kind, detail)} for the failing specs of a batch."""
     fails = {}
     prog = CProgram("double" if floating else "long long")
     fi_of = {}
     expect = {}
     for i, spec in enumerate(specs):
-        if not supported(spec, floating):
+        if not supported(spec, floating, mixed):
             continue
         try:
             assigns, text = map_to_c(spec)
@@ -571,6 +573,7 @@ def run_history(hist):
     mappers = [CCodeMapper(), None]
     seen = [set(), None]            # distinct wrapped children mapped in each mapper's lineage
     ext = 0
+    ext_names = [set(), set()]      # per mapper: names that came in through copy_with_mapped_cses
     outputs = []
     for step, op in enumerate(hist):
         if op[0] == "map":
@@ -621,20 +624,30 @@ def run_history(hist):
             # whose names are in it
             keep = [] if op[1] == "empty" else list(mappers[0].cse_name_list[:1])
             mappers[1] = mappers[0].copy(keep)
+            ext_names[1] = set()
             seen[1] = set() if not keep else None     # None: which children survive is not modelled
         elif op[0] == "copy":
             mappers[1] = mappers[0].copy()
+            ext_names[1] = set(ext_names[0])
             seen[1] = set(seen[0]) if seen[0] is not None else None
         else:
-            mappers[1] = mappers[0].copy_with_mapped_cses([(f"{EXT[0]}{ext}", EXT[1])])
+            # the mapped name is of the very shape the generator would hand out next (alternating
+            # with a name of another shape), so that a registry out of step with the list shows
+            taken = {n for n, _ in mappers[0].cse_name_list}
+            k = 0
+            while f"_cse{k}" in taken:
+                k += 1
+            mapped = f"_cse{k}" if ext % 2 == 0 else f"{EXT[0]}{ext}"
+            ext_names[1] = ext_names[0] | {mapped}
+            mappers[1] = mappers[0].copy_with_mapped_cses([(mapped, EXT[1])])
             seen[1] = set(seen[0]) if seen[0] is not None else None
             ext += 1
         for mi, m in enumerate(mappers):
             if m is None:
                 continue
             names = [n for n, _ in m.cse_name_list]
-            own = [(n, t) for n, t in m.cse_name_list if not n.startswith(EXT[0])]
-            own_names = [n for n, _ in own]
+            own = [(n, t) for n, t in m.cse_name_list if n not in ext_names[mi]]
+            own_names = names
             if len(set(own_names)) != len(own_names):
                 dup = sorted({n for n in own_names if own_names.count(n) > 1})
                 return (("duplicate-name", step,
@@ -681,7 +694,8 @@ class C14(Check):
             "complex constants (zero imaginary parts included) in 8 operand roles, compiled as C++ "
             "and run at a negative and a positive point; 11 calls whose callee is a name, a struct "
             "member or an array element (the member f differs from the global f), compiled and run; "
-            "negative constant exponents (-1, -2, -1.0) in the floating fragment. "
+            "negative constant exponents (-1, -2, -1.0) in the floating fragment; integer variables "
+            "divided by / multiplied with 8 float constants (integer-valued ones included). "
             "Engine B: every history up to the depth bound over {map one of 8 expressions with "
             "shared/fresh/nested/prefixed wrappers on the original mapper or on its copy, map one "
             "of 2 expressions with an unrenderable leaf (must fail every time and leave the tables "
@@ -723,6 +737,7 @@ class C14(Check):
             ("flt-nest2", lambda: batches("f", (s for _, s in
                                                 gen.nest2(FLT_CTORS, FLT_CTORS, FFILL)))),
             ("int-negsums", lambda: batches("i", self.gen_negsums())),
+            ("int-float-constants", lambda: batches("m", self.gen_mixed())),
             ("int-bushy", lambda: batches("i", self.gen_bushy(tier))),
             ("int-hash-twins", lambda: batches("i", (
                 s for s in gen.twin_trees([(C(-1), C(-2)), (C(0), C(5)), (C(1), C(2))])
@@ -756,6 +771,19 @@ class C14(Check):
                             ch[pos] = par(k1, k2)
                             yield gp(*ch)
 
+    def gen_mixed(self):
+        """integer variables with a float constant as the ONLY floating operand of a division (or of
+        a product / sum that is then divided): integer-valued floats (2.0) must stay floats"""
+        for c in (C(2.0), C(4.0), C(1.0), C(3.0), C(0.5), C(2.5), C(-2.0), C(1e3)):
+            num = (X, ("Sum", T(X, C(1))), ("Product", T(X, Y)), C(3), ("Product", T(X, c)))
+            for n in num:
+                yield ("Quotient", n, c)
+                yield ("Quotient", c, ("Sum", T(n, C(1))))
+                yield ("Product", T(("Quotient", n, c), C(3)))
+                yield ("Sum", T(("Quotient", ("Product", T(n, c)), C(2)), Y))
+                yield ("Quotient", ("Sum", T(n, c)), C(4))
+                yield ("If", ("Comparison", ("Quotient", n, c), S("<"), Y), X, Y)
+
     def gen_negsums(self):
         """Sums whose terms are (partly or all) products with a leading -1 -- the printer turns
         them into subtractions -- under every parent and position."""
@@ -787,14 +815,15 @@ class C14(Check):
                 r.fail(k, sig, detail)
             return r
         floating = mode == "f"
+        mixed = mode == "m"
         specs = item[1]
-        fails = check_specs(specs, floating, r)
+        fails = check_specs(specs, floating, r, mixed)
         for i, (k, _detail) in sorted(fails.items()):
             spec = specs[i]
 
             def one(s):
                 try:
-                    f = check_specs((s,), floating)
+                    f = check_specs((s,), floating, None, mixed)
                 except refsem.UnknownVariable:
                     return None         # the localiser's placeholder names are not C variables
                 return f[0][0] if f else None
@@ -802,7 +831,7 @@ class C14(Check):
             if not locs:
                 locs = [(k, f"{k}|{show(spec)}", spec)]
             for kk, sig, m in locs:
-                f = check_specs((m,), floating)
+                f = check_specs((m,), floating, None, mixed)
                 d = f[0][1] if f else ""
                 r.fail(kk, sig, f"in {show(spec)}: minimal failing tree {show(m)}: {d}",
                        witness=(mode, (m,)))
